@@ -1044,10 +1044,14 @@ def processLine (st : DState) (raw : String) : DState :=
           let side0 := if keepFs then h.side else { h.side with fsVers := none }
           let side' := if mdiff then { side0 with msync := false } else { side0 with msync := sd.msync }
           let out := if mdiff then st.out.push s!"DIFF {st.line} {lhs} impl={implTxt} model={h.model}" else st.out
-          let out := h.viols.foldl (fun o v => o.push s!"VIOL {st.line} {v} {lhs} impl={implTxt}") out
+          -- rules that read the model's state (which file has which version, the exact Stat) say nothing once the model
+          -- and the implementation have parted ways on an earlier line (that line was reported as a DIFF)
+          let hv := if sd.msync then h.viols
+            else h.viols.filter (fun v => !(["VersionsOK", "TrimBySizeOK.bound", "FindBySizeOK"].contains v))
+          let out := hv.foldl (fun o v => o.push s!"VIOL {st.line} {v} {lhs} impl={implTxt}") out
           let st := { st with counts := counts, out := out,
                               diffs := st.diffs + (if mdiff then 1 else 0),
-                              viols := st.viols + h.viols.length }
+                              viols := st.viols + hv.length }
           let st := if st.crashArmed && st.crashOp.isEmpty && !isB then { st with crashOp := opName :: restOps } else st
           -- durability acknowledgements (C06)
           let st := if isB then st else
